@@ -1966,6 +1966,9 @@ def run_c16(ctx) -> Corr:
     # of a periodic save and of leaving (harness/props/churn.py), on a stepping virtual-time loop
     from . import churn
     churn.churn_group(corr, ctx, lib.rng_for(ctx.seed, "c16-churn"), os.path.join(scratch, "c16-churn.json"))
+    # a step of __aenter__ fails, or the task is cancelled while entering, with a non-empty persistence file (harness/props/enterfail.py)
+    from . import enterfail
+    enterfail.enterfail_group(corr, ctx, lib.rng_for(ctx.seed, "c16-enterfail"), os.path.join(scratch, "c16-enterfail.json"))
 
     # a connect attempt that stays pending for a long stretch of (virtual) time before it fails or succeeds, and a
     # long-lived body: the whole event loop runs on virtual time, so every timer in the code under test is covered
